@@ -85,6 +85,7 @@ TARGETS = [
 # (at the latest when the interpreter flushes sys.stdout on exit) once the writer is closed
 STDOUT_TARGETS = [("stream", "stream://"), ("stream", "stream://-"), ("avro", "avro://"), ("json", "jsonfile://"), ("json", "jsonfile://-"), ("csv", "csvfile://")]
 STDOUT_EXT = {"stream": ".records", "avro": ".avro", "json": ".json", "csv": ".csv"}
+MOVES = ("rename", "link")  # how an existing file can be given another name (rename, or link + unlink)
 TERMINATORS = ["c", "cc", "fc", "X", "R", "Xc"]  # c close, f flush, X with-exit, R with body raising then exit
 BODIES = [""]
 for _n in range(1, 6):
@@ -804,7 +805,7 @@ def run_archive(plan, w, viols, states):
                 w.probe("stamp-with-utc-offset")
             gen_ts = rec._generated
             path = expected_path(plan, root, name, gen_ts, op["s"])
-            before = len([e for e in w.fs.events if e[0] == "rename"])
+            before = len([e for e in w.fs.events if e[0] in MOVES])
             fired_before = w.stats["fault:rename_error"] + w.stats["fault:open_error"]
             try:
                 arch.write(rec)
@@ -823,13 +824,13 @@ def run_archive(plan, w, viols, states):
                     add(_viol("C17.write-raises", "step %d: archiving a record raised %s: %s" % (step, type(e).__name__, short(str(e), 120))))
                 else:
                     w.probe("write-refused-by-injected-fault")  # refused, not lost: the record is not in the model
-                    if len([e for e in w.fs.events if e[0] == "rename"]) > before:
+                    if len([e for e in w.fs.events if e[0] in MOVES]) > before or not w.fs.isfile(path):
                         segment.pop(path, None)  # the old file was moved away before the open of the new one failed
-            after = len([e for e in w.fs.events if e[0] == "rename"])
+            after = len([e for e in w.fs.events if e[0] in MOVES])
             if after > before:
                 rotations += after - before
                 w.probe("rotation")
-                for e in [e for e in w.fs.events if e[0] == "rename"][before:]:
+                for e in [e for e in w.fs.events if e[0] in MOVES][before:]:
                     key = (e[1], int(w.clock.timestamp()))
                     if key in rot_seen:
                         w.probe("same-second-rotation")
@@ -877,7 +878,7 @@ def run_archive(plan, w, viols, states):
                 w.log("other", "precreate", path[len(root):])
         check_events(step)
         # same-second rotation probe
-    rn = [e for e in w.fs.events if e[0] == "rename"]
+    rn = [e for e in w.fs.events if e[0] in MOVES]
     if pre and any(e for e in rn):
         w.probe("pre-existing-rotated")
     w.fs.inject.clear()
